@@ -1,0 +1,45 @@
+//! Hooks for external runtime monitors (cargo feature `verif-hooks`, off by default).
+//!
+//! Nothing in this module changes behaviour unless a monitor explicitly installs a callback.
+
+/// Observation and perturbation points of the worker pool.
+pub mod sched {
+    use std::sync::{Arc, RwLock};
+
+    /// Where in the pool a point is reached.
+    #[derive(Debug, Clone, Copy, PartialEq, Eq, Hash)]
+    pub enum Site {
+        /// `dispatch` was entered (packet = the frame handed in).
+        DispatchEnter,
+        /// A worker was chosen, right before `try_send` (packet = the frame).
+        DispatchChosen,
+        /// `try_send` succeeded, before the counters are updated (packet = empty).
+        DispatchQueued,
+        /// `try_send` failed, before the counters are updated (packet = empty).
+        DispatchDropped,
+        /// A worker took a frame off its queue (packet = the frame).
+        WorkerDequeue,
+        /// A worker finished handling a frame, whatever the outcome (packet = the frame).
+        WorkerProcessed,
+    }
+
+    pub type Callback = Arc<dyn Fn(Site, usize, &[u8]) + Send + Sync>;
+
+    static CALLBACK: RwLock<Option<Callback>> = RwLock::new(None);
+
+    /// Install (or remove with `None`) the process-wide callback.
+    pub fn install(callback: Option<Callback>) {
+        if let Ok(mut guard) = CALLBACK.write() {
+            *guard = callback;
+        }
+    }
+
+    /// Called by the pool; a no-op unless a callback is installed.
+    #[inline]
+    pub fn point(site: Site, worker_id: usize, packet: &[u8]) {
+        let callback = CALLBACK.read().ok().and_then(|guard| guard.clone());
+        if let Some(callback) = callback {
+            callback(site, worker_id, packet);
+        }
+    }
+}
